@@ -11,7 +11,8 @@ From SV Require Import Rot.C17Base SM.C17Name SM.C17Rounds SM.C17Subst SM.C17Sit
                        Gen.C17Formulas_gen
                        Rot.C17GeomProofs SM.C17NameProofs SM.C17RoundsProofs SM.C17SubstProofs SM.C17SitesProofs
                        SM.C17FrameProofs SM.C17GlobalProofs SM.C17CacheProofs SM.C17ComposeProofs
-                       SM.C17Whole SM.C17WholeProofs SM.C17PropertyProofs SM.C17Kinds SM.C17KindsProofs SM.C17ManifestProofs SM.C17RoundsDyn SM.C17RoundsDynProofs.
+                       SM.C17Whole SM.C17WholeProofs SM.C17PropertyProofs SM.C17Kinds SM.C17KindsProofs SM.C17ManifestProofs SM.C17RoundsDyn SM.C17RoundsDynProofs
+                       SM.C17AutoNames SM.C17AutoNamesProofs.
 Import ListNotations.
 (* String is imported for the census names; [length] keeps meaning the length of a list *)
 Local Notation length := List.length (only parsing).
@@ -596,4 +597,24 @@ Theorem c17_variable_link_recorded_as_literal_refuted :
   loop3 countdown_fl countdown_as_literal (fun l => l) 100 (start3 [3]) = (Raise, 2, 1) /\
   loop (children3 countdown_as_literal) 100 [3] = (Done, 4, 4) /\ ~ lit_by_file countdown_fl countdown_as_literal.
 Proof. exact dyn_chain_recorded_as_literal_refuted. Qed.
+(** *** Round 6: the automatic names of unnamed instances (SM/C17AutoNames.v).  collapse_all numbers the unnamed instances of
+    a run from one variable; the generated object [g_collapse_all_auto_counter] lists what collapse_all does to it
+    (obligation `auto_name_counter_kept_across_passes`: [counter_kept] - set before the loop over the passes, increased
+    directly before every use, bound nowhere else inside the loop).  Then, however many unnamed instances each pass
+    collapses ([passes]; nested unnamed instances are collapsed in later passes), no number is given twice in the run. *)
+Theorem c17_auto_instance_names_distinct_across_passes : forall evs, counter_kept evs = true ->
+  forall passes, NoDup (auto_names (counter_resets evs) 0 passes).
+Proof. exact counter_kept_gives_distinct_names. Qed.
+
+Theorem c17_auto_instance_names_kept_counter : forall passes c,
+  NoDup (auto_names false c passes) /\ (forall k, In k (auto_names false c passes) -> c < k).
+Proof. intros; split; [apply auto_names_kept_distinct | apply auto_names_kept_above_start]. Qed.
+
+(** numbering that restarts in every pass (the position in the pass as the number) gives the first unnamed instance of the
+    second pass the number of the first one of the first pass; such an event list does not pass [counter_kept] *)
+Theorem c17_auto_instance_names_restarting_per_pass_refuted :
+  auto_names true 0 [1; 1] = [1; 1] /\ ~ NoDup (auto_names true 0 [1; 1]) /\
+  counter_kept [CStoreInLoop] = false /\ counter_kept [CInitBeforeLoop; CIncrAtUse; CStoreInLoop] = false /\
+  counter_kept [CInitBeforeLoop; CIncrAtUse] = true.
+Proof. exact auto_names_reset_refuted. Qed.
 (* END round 4 - cycle repair ====================================================================================== *)
